@@ -36,8 +36,8 @@ def provider_Close : List Ev := [
   .read "p.scopes" ["p.scopesMu"],
   .nilAssign "p.scopes" ["p.scopesMu"],
   .unlock "p.scopesMu",   -- pTake ]
-  .call "s.Close" [],   -- pScopes -> cCas / kCas
-  .call "p.rootScope.Close" [],   -- pRest ...
+  .call "s.dispose" [],   -- pScopes -> cCas / kCas
+  .call "p.rootScope.dispose" [],   -- pRest ...
   .lock "p.disposablesMu" [],
   .read "p.disposables" ["p.disposablesMu"],
   .nilAssign "p.disposables" ["p.disposablesMu"],
@@ -127,31 +127,7 @@ def provider_storeSingleton : List Ev := [
 ]
 
 def scope_Close : List Ev := [
-  .atomic "CompareAndSwapInt32" "s.disposed" [],   -- cCas
-  .chanRecv "s.closed" [],   -- cWait (the loser of the CAS; returns nil afterwards)
-  .ret [],
-  .deferChanClose "s.closed",   -- cSig (runs last)
-  .call "s.cancel" [],   -- cCancel
-  .lock "s.childrenMu" [],   -- cTake [
-  .read "s.children" ["s.childrenMu"],
-  .nilAssign "s.children" ["s.childrenMu"],
-  .unlock "s.childrenMu",   -- cTake ]
-  .call "child.Close" [],   -- cKids -> kCas ... (nested Close of each child)
-  .lock "s.disposablesMu" [],   -- cTakeD [
-  .read "s.disposables" ["s.disposablesMu"],
-  .nilAssign "s.disposables" ["s.disposablesMu"],
-  .unlock "s.disposablesMu",   -- cTakeD ]
-  .call "disposables[].Close" [],   -- cDrain (USER Close, reverse order)
-  .lock "s.parentScope.childrenMu" [],   -- kDetP [ (skipped for S: parentScope == nil)
-  .delete "s.parentScope.children" ["s.parentScope.childrenMu"],
-  .unlock "s.parentScope.childrenMu",   -- kDetP ]
-  .lock "s.rootProvider.scopesMu" [],   -- cDetS / kDetS [
-  .delete "s.rootProvider.scopes" ["s.rootProvider.scopesMu"],
-  .unlock "s.rootProvider.scopesMu",   -- cDetS / kDetS ]
-  .lock "s.instancesMu" [],   -- cNil [
-  .nilAssign "s.instances" ["s.instancesMu"],
-  .unlock "s.instancesMu",   -- cNil ]
-  .ret []
+  .call "s.dispose" []
 ]
 
 def scope_CreateScope : List Ev := [
@@ -209,6 +185,38 @@ def scope_createInstance : List Ev := [
   .call "s.setInstance" [],
   .call "s.setInstance" [],
   .call "s.shareInstance" []
+]
+
+def scope_dispose : List Ev := [
+  .atomic "CompareAndSwapInt32" "s.disposed" [],   -- cCas
+  .chanRecv "s.closed" [],   -- cWait (the loser of the CAS)
+  .plainRead "s.closeErr" [],   -- cWait: read after the receive
+  .ret [],
+  .deferChanClose "s.closed",   -- cSig (deferred first, runs last)
+  .deferClosureBegin,
+  .plainWrite "s.closeErr" [],   -- cErr (deferred second, runs before cSig)
+  .closureEnd,
+  .call "s.cancel" [],   -- cCancel
+  .lock "s.childrenMu" [],   -- cTake [
+  .read "s.children" ["s.childrenMu"],
+  .nilAssign "s.children" ["s.childrenMu"],
+  .unlock "s.childrenMu",   -- cTake ]
+  .call "child.dispose" [],   -- cKids -> kCas ... (nested dispose of each child)
+  .lock "s.disposablesMu" [],   -- cTakeD [
+  .read "s.disposables" ["s.disposablesMu"],
+  .nilAssign "s.disposables" ["s.disposablesMu"],
+  .unlock "s.disposablesMu",   -- cTakeD ]
+  .call "disposables[].Close" [],   -- cDrain (USER Close, reverse order)
+  .lock "s.parentScope.childrenMu" [],   -- kDetP [ (skipped for S: parentScope == nil)
+  .delete "s.parentScope.children" ["s.parentScope.childrenMu"],
+  .unlock "s.parentScope.childrenMu",   -- kDetP ]
+  .lock "s.rootProvider.scopesMu" [],   -- cDetS / kDetS [
+  .delete "s.rootProvider.scopes" ["s.rootProvider.scopesMu"],
+  .unlock "s.rootProvider.scopesMu",   -- cDetS / kDetS ]
+  .lock "s.instancesMu" [],   -- cNil [
+  .nilAssign "s.instances" ["s.instancesMu"],
+  .unlock "s.instancesMu",   -- cNil ]
+  .ret []
 ]
 
 def scope_getInstance : List Ev := [
@@ -297,6 +305,7 @@ def facts : List (String × List Ev) := [
   ("scope.GetGroup", scope_GetGroup),
   ("scope.GetKeyed", scope_GetKeyed),
   ("scope.createInstance", scope_createInstance),
+  ("scope.dispose", scope_dispose),
   ("scope.getInstance", scope_getInstance),
   ("scope.lockCreation", scope_lockCreation),
   ("scope.resolve", scope_resolve),
